@@ -230,6 +230,36 @@ func (s *State) Register(f []string, w *bufio.Writer) bool {
 	case f[0] == "mw" && len(f) == 2:
 		s.R.Use(s.mw(f[1]))
 		fmt.Fprintln(w, "ok")
+	case f[0] == "churn" && len(f) == 4:
+		// a long run in one line: <n> modifications of the route table, the i-th (from 0) being Handle(<prefix><i/2>, h) for
+		// even i and HandleRemove(<prefix><i/2>) for odd i - resources that come and go.  `ok <n>`, or the first answer that
+		// is not ok: `bad <i> <answer>` (the run stops there)
+		n, err := strconv.Atoi(f[1])
+		if err != nil || n < 0 || n > 1<<26 {
+			return false
+		}
+		prefix := Arg(f, 2)
+		for i := 0; i < n; i++ {
+			p := prefix + strconv.Itoa(i/2)
+			var ans string
+			func() {
+				defer func() {
+					if r := recover(); r != nil {
+						ans = PanicKind(r)
+					}
+				}()
+				if i%2 == 0 {
+					ans = ErrKind(s.R.Handle(p, mux.HandlerFunc(s.handler(f[3], normPattern(p), false))))
+				} else {
+					ans = ErrKind(s.R.HandleRemove(p))
+				}
+			}()
+			if ans != "ok" {
+				fmt.Fprintf(w, "bad %d %s\n", i, ans)
+				return true
+			}
+		}
+		fmt.Fprintf(w, "ok %d\n", n)
 	case f[0] == "inner" && len(f) >= 3 && f[1] != "inner" && f[1] != "mount":
 		// a registration operation on the inner router
 		s.R, s.Inner = s.Inner, s.R
